@@ -259,21 +259,21 @@ pub struct ServerSim {
 }
 
 fn tag_client(tag: &str) -> Option<usize> {
-    // "c<id>r<k>"
+    // exactly "c<digits>r<digits>"
     let t = tag.strip_prefix('c')?;
     let r = t.find('r')?;
-    t[..r].parse().ok()
+    let (a, b) = (&t[..r], &t[r + 1..]);
+    if a.is_empty() || b.is_empty() || !a.bytes().all(|c| c.is_ascii_digit()) || !b.bytes().all(|c| c.is_ascii_digit()) {
+        return None;
+    }
+    a.parse().ok()
 }
 
+/// the harness tag of a request: its path must be exactly "/" + tag (a corrupted URI that still
+/// parses is "untagged", never mistaken for another request)
 fn tag_of_path(p: &str) -> Option<String> {
     let t = p.strip_prefix('/')?;
-    let end = t.find(|c: char| !(c.is_ascii_alphanumeric())).unwrap_or(t.len());
-    let t = &t[..end];
-    if t.starts_with('c') && t.contains('r') && tag_client(t).is_some() {
-        Some(t.to_string())
-    } else {
-        None
-    }
+    tag_client(t).map(|_| t.to_string())
 }
 
 pub fn app_response(version: u8, tag: &str, code: u16, pad: usize) -> (Response, Vec<u8>) {
@@ -580,7 +580,8 @@ impl ServerSim {
                 let mut fits = true;
                 let mut any = false;
                 for (_, cl) in self.clients.iter() {
-                    if cl.accept != Accept::Served {
+                    // only clients that are (still) well-behaved are owed anything by a flush
+                    if cl.accept != Accept::Served || !self.client_clean(cl) {
                         continue;
                     }
                     let written = world::with(|w| w.conns[cl.conn].srv_written) as usize;
@@ -592,7 +593,10 @@ impl ServerSim {
                         }
                     }
                 }
-                if self.flags.well_behaved && !fits {
+                // flush_outgoing_writes treats EAGAIN as a dead connection and drops its output; the
+                // properties promise delivery only for output that fits the socket buffer, so a flush
+                // is issued only when that holds for every well-behaved client (DESIGN 4, C08)
+                if !fits {
                     false
                 } else {
                     let _ = any;
